@@ -13,8 +13,10 @@
       token <bytes> and drop filter <filter> = N (NULL) | - (empty) | n1,n2,...
    c04x: the same with coap_update_token as pinned (8-bit cast of e_token_length).
 
-   result: start=<rets|P> [dump] b=<buffer> { | <0/1> [dump] b=<buffer> }*
-           [ || dup=NULL | dup=[dump] b=<buffer> ] || wire=<bytes> reparse=[dump]
+   result: start=<rets|P> [dump] b=<buffer> <rp> { | <0/1> [dump] b=<buffer> <rp> }*
+           [ || dup=NULL | dup=[dump] b=<buffer> <rp> ] || wire=<bytes> reparse=[dump]
+   <rp> = "rp==" when header + buffer parse back to the message just dumped (type / message id
+   aside on the reliable framings), else rp=[what they parse to | REJECT]
    The spec-level model runs on the same edits; " SPECDIFF@<i>" is appended to a step whose
    byte-level result is not the spec-level one (the refinement theorem says: never). *)
 open Model
@@ -43,10 +45,30 @@ let rec edit_ops toks =
   | "K" :: b :: tl -> EdToken (bytes_of_tok b) :: edit_ops tl
   | _ -> failwith "bad edit op"
 
+let cur_proto = ref UDP
+
+(* type and message id are not carried by the reliable framings *)
+let from_code (d : string) : string =
+  if !cur_proto = UDP then d
+  else
+    let rec find i = if i + 3 > String.length d then 0
+      else if String.sub d i 3 = " k=" then i else find (i + 1) in
+    let i = find 0 in String.sub d i (String.length d - i)
+
+(* accessor dump, buffer, and whether header + buffer parse back to the same message *)
 let dump_b (p : ed_bpdu) : string =
   match ed_abs p with
   | None -> "[STUCK] b=" ^ hex_of_bytes p.eb_buf
-  | Some m -> Printf.sprintf "[%s] b=%s" (dump_msg m) (hex_of_bytes p.eb_buf)
+  | Some m ->
+      let mine = dump_msg m in
+      let rp =
+        match parse !cur_proto (header !cur_proto m @ p.eb_buf) with
+        | None -> "rp=[REJECT]"
+        | Some m' ->
+            let theirs = dump_msg m' in
+            if m'.m_code = m.m_code && from_code mine = from_code theirs then "rp=="
+            else Printf.sprintf "rp=[%s]" theirs in
+      Printf.sprintf "[%s] b=%s %s" mine (hex_of_bytes p.eb_buf) rp
 
 let same_as_spec (p : ed_bpdu) (q : pdu) : bool =
   match ed_abs p with
@@ -62,6 +84,7 @@ let c04_gen cast8 toks =
   match toks with
   | pr :: _amode :: mx :: kind :: rest ->
       let pr = proto_of_string pr in
+      cur_proto := pr;
       let mxi = int_of_string mx in
       let start_toks, rest2 = split_at [] "E" rest in
       let edit_toks, dup_toks = split_at [] "X" rest2 in
